@@ -42,11 +42,13 @@ CHECKS = {
               "end()-begin()==size, copies and assigned iterators, post-increment, iterator==const_iterator. Flat ranges on an arbitrary "
               "NON-contiguous descriptor: elements()[k], *(begin()+k), begin()[k] designate the element at the mixed-radix digits of k, "
               "(it+a)-=b, it=jt, it[b], front/back, size, end-begin. next_canonical / prev_canonical are the mixed-radix successor / predecessor "
-              "for all 2^D carry patterns, to_linear(from_linear(k))==k. Type-level iterator contract (W02)."),
+              "for all 2^D carry patterns, to_linear(from_linear(k))==k. The flat iterator's own ++ / -- (pre and post forms) at a position given "
+              "by its digits, one case per carry / borrow pattern, followed by -, [], += (O02.flat.step), and the end position reached by ++ "
+              "followed by -=, -, [] (O02.flat.endstep). Type-level iterator contract (W02)."),
         design_ref="DESIGN.md 3/C02",
-        note=IRNOTE + " Flat-range laws here are for zero-based views (re-based: C19). The ++/-- coupling of the flat iterator's position and "
-             "index tuple is decided structurally (R02.couple, engine A) together with O02.canon; data-dependent carries are covered by the "
-             "exhaustive carry-pattern case split, not by path enumeration.",
+        note=IRNOTE + " Flat-range laws here are for zero-based views (re-based: C19). Data-dependent carries are covered by the "
+             "exhaustive carry-pattern case split (positions written in mixed radix, decided with a Euclidean-division rule under the case's sign "
+             "assumptions), not by path enumeration.",
         technique="abstract interpretation of -O2 LLVM IR in a polynomial domain (div/mod as hash-consed atoms) + compile-time witnesses",
     ),
     "C03": dict(
